@@ -92,7 +92,7 @@ def _positive_exists(g, out, depth=0):
         _positive_exists(g.arg(1), out, depth + 1)
 
 
-def _prove(conds, goal, depth=0, level=1, timeout_ms=None, seeds=(0, 7, 23)):
+def _prove(conds, goal, depth=0, level=1, timeout_ms=None, seeds=(0, 7, 23), ground_only=False):
     """(result, solver) for `conds |= goal`.  Universal goals are skolemised here (also below an implication), conjunctive goals are
     discharged conjunct by conjunct, each as its own query with its own instantiation hints."""
     extra = []
@@ -138,11 +138,29 @@ def _prove(conds, goal, depth=0, level=1, timeout_ms=None, seeds=(0, 7, 23)):
             for a in cands2:
                 for b in cands2:
                     extra.append(z3.substitute_vars(c.body(), a, b))
+    # witness terms: an instance may mention f(sk) for an uninterpreted index-valued f (e.g. "the position at which key sk was computed");
+    # the index-quantified hypotheses are instantiated there as well
+    if skolems:
+        wit = {}
+
+        def scan(t, d=0):
+            if d > 30 or len(wit) >= 4 or not z3.is_app(t):
+                return
+            if t.decl().kind() == z3.Z3_OP_UNINTERPRETED and t.num_args() == 1 and z3.is_int(t) and any(z3.eq(t.arg(0), sk) for sk in skolems):
+                wit[str(t)] = t
+            for ch in t.children():
+                scan(ch, d + 1)
+        for x in list(extra):
+            scan(x)
+        for wt in wit.values():
+            for c in conds:
+                if z3.is_quantifier(c) and c.is_forall() and c.num_vars() == 1 and c.var_sort(0) == z3.IntSort():
+                    extra.append(z3.substitute_vars(c.body(), wt))
     base = list(conds) + extra
     if z3.is_and(goal) and goal.num_args() > 1 and depth < 4:
         r, s = z3.unsat, None
         for cj in goal.children():
-            r, s = _prove(base, cj, depth + 1, level, timeout_ms, seeds)
+            r, s = _prove(base, cj, depth + 1, level, timeout_ms, seeds, ground_only)
             if r != z3.unsat:
                 break
         return r, s
@@ -172,6 +190,9 @@ def _prove(conds, goal, depth=0, level=1, timeout_ms=None, seeds=(0, 7, 23)):
             for h in conds:       # and the universal hypotheses at the same candidates
                 if z3.is_quantifier(h) and h.is_forall() and h.num_vars() == 1 and h.var_sort(0) == z3.IntSort():
                     base.append(z3.substitute_vars(h.body(), c))
+    if ground_only:
+        # only the instances: the quantified hypotheses themselves are left out (weaker hypotheses — sound; no matching loops)
+        base = [c for c in base if not (z3.is_quantifier(c) and c.is_forall())]
     return _check(base + [z3.Not(goal)], timeout_ms or Z3_TIMEOUT_MS, seeds)
 
 
@@ -182,7 +203,11 @@ def solve(ob, use_cvc5=True, fast=False):
     if ob.expect == "unsat":
         # portfolio: the plain query first (short budget), then the version with skolemisation, conjunct splitting and instantiation hints
         r, s = _check(list(ob.conds) + [z3.Not(ob.goal)], min(Z3_TIMEOUT_MS, 2_000), seeds=(0,))
-        if r == z3.unknown:      # ... with the universal hypotheses instantiated at the goal's skolem constants only
+        if r == z3.unknown:      # ... from the instances of the universal hypotheses at the goal's skolem constants alone
+            r, s = _prove(list(ob.conds), ob.goal, level=0, timeout_ms=min(Z3_TIMEOUT_MS, 3_000), seeds=(0,), ground_only=True)
+            if r == z3.sat:      # (a model of the weakened hypotheses refutes nothing)
+                r = z3.unknown
+        if r == z3.unknown:      # ... with the universal hypotheses kept and instantiated at the goal's skolem constants only
             r, s = _prove(list(ob.conds), ob.goal, level=0, timeout_ms=min(Z3_TIMEOUT_MS, 5_000), seeds=(0,))
         if r == z3.unknown and fast:
             r, s = _prove(list(ob.conds), ob.goal, level=1, timeout_ms=min(Z3_TIMEOUT_MS, 5_000), seeds=(0,))
